@@ -4,7 +4,7 @@ import common as C
 import statelib
 from framework import Unit
 
-PROPS_FILES = ['C02', 'C02ext', 'C02dual']
+PROPS_FILES = ['C02', 'C02ext', 'C02dual', 'C02excl']
 IMPORTS = 'From Gen Require Import enums core exec.'
 SPEC_IMPORTS = ('From ArmV Require Import Spec.Pseudocode Spec.Arch Spec.MachineView Spec.DPSem Spec.LoadStore Spec.Hub Spec.Memory.')
 SR = {'LSL': 1, 'LSR': 2, 'ASR': 3, 'ROR': 4, 'RRX': 5}
@@ -340,7 +340,8 @@ def units():
                  ['Proofs/LSProofs2.v', 'Proofs/LSProofs3.v', 'Proofs/LSProofs4.v'],
                  ['opcodes.abstract_opcodes.%s.%s.execute' % (snake(cls), cls) for cls in [c for (c, _, _, _) in EXTRA] + [c for c, _ in LITERALS]],
                  extra_and_literal_cases, IMPORTS, SPEC_IMPORTS + '\nFrom ArmV Require Import Spec.LoadStoreUnpriv.'),
-            Unit('exclusive', [], [], [], excl_cases, IMPORTS, SPEC_IMPORTS + '\nFrom ArmV Require Import Spec.LoadStoreUnpriv.'),
+            Unit('exclusive', ['C02_' + c for c in EXCLUSIVES], ['Proofs/ExclProofs.v'],
+                 ['opcodes.abstract_opcodes.%s.%s.execute' % (snake(c), c) for c in EXCLUSIVES], excl_cases, IMPORTS, SPEC_IMPORTS + '\nFrom ArmV Require Import Spec.LoadStoreUnpriv.'),
             Unit('dual', ['C02_' + c for c in DUALS], ['Proofs/LSProofs5.v'],
                  ['opcodes.abstract_opcodes.%s.%s.execute' % (snake(c), c) for c in DUALS], dual_cases, IMPORTS,
                  SPEC_IMPORTS + '\nFrom ArmV Require Import Spec.LoadStoreUnpriv.')]
